@@ -509,3 +509,175 @@ def rule_no_cross_dtype_cast(repo, rep):
                     % (ast.unparse(c)[:70], src, src))
   if n == 0:
     rep.derived(R, 'package', '')
+
+
+def rule_pair_distance_covers(repo, rep):
+  """every pair handed to pair_distance gets the distance of that pair"""
+  R = 'R-INTERP:pair-distance-covers-all-pairs'
+  rep.rule(R, 'MahalanobisMixin.pair_distance interpreted for n_pairs in '
+           '{1, 5, 65536, 65537, 70006, 131072, 200001}: the returned '
+           'vector has one entry per pair and entry i is computed from the '
+           'two points of pair i (whether the pairs are scored at once or '
+           'in batches, every index interval is written with the distances '
+           'of the same interval)')
+  c = repo.get_class('MahalanobisMixin')
+  f = repo.resolve_method(c, 'pair_distance') if c is not None else None
+  if f is None:
+    rep.unknown(R, 'MahalanobisMixin.pair_distance', '', 'method vanished')
+    return
+  rep.analysed(f)
+  full = slice(None, None, None)
+
+  class Buf:
+    def __init__(self, n, fill):
+      self.n, self.fill, self.writes = n, fill, []
+
+  class W(World):
+    def __init__(self, n):
+      self.n = n
+
+    def _iv(self, sl, lo, hi):
+      """interval selected by a slice inside [lo, hi)"""
+      if sl == full:
+        return (lo, hi)
+      if isinstance(sl, slice) and sl.step in (None, 1) and \
+              (sl.start is None or isinstance(sl.start, int)) and \
+              (sl.stop is None or isinstance(sl.stop, int)):
+        a = lo + (sl.start or 0)
+        b = hi if sl.stop is None else min(hi, lo + sl.stop)
+        return (min(a, hi), max(min(a, hi), b))
+      return None
+
+    def attr(self, it, v, attr, node):
+      if v == S('self') and attr in ('preprocessor_', 'components_'):
+        return S(attr)
+      if tg(v) == 'pairs' and attr == 'shape':
+        return (v[2] - v[1], 2, 3)
+      if tg(v) in ('diff', 'emb', 'sq', 'dist') and attr == 'shape':
+        return (v[2] - v[1],) + ((3,) if tg(v) != 'dist' else ())
+      if isinstance(v, Buf) and attr == 'shape':
+        return (v.n,)
+      return NotImplemented
+
+    def subscript(self, it, base, idx, node):
+      if tg(base) == 'pairs':
+        parts = idx if isinstance(idx, tuple) else (idx,)
+        iv = self._iv(parts[0], base[1], base[2])
+        if iv is None:
+          return NotImplemented
+        rest = parts[1:]
+        if not rest or all(p == full for p in rest):
+          return S('pairs', iv[0], iv[1])
+        if isinstance(rest[0], int) and rest[0] in (0, 1) and \
+                all(p == full for p in rest[1:]):
+          return S('slot', rest[0], iv[0], iv[1])
+      if tg(base) in ('diff', 'emb', 'dist'):
+        parts = idx if isinstance(idx, tuple) else (idx,)
+        iv = self._iv(parts[0], base[-2], base[-1])
+        if iv is not None and all(p == full for p in parts[1:]):
+          return S(*(base.t[:-2] + iv))
+      return NotImplemented
+
+    def binop(self, it, op, a, b, node):
+      if isinstance(op, ast.Sub) and tg(a) == 'slot' and tg(b) == 'slot' \
+              and a[2:] == b[2:] and {a[1], b[1]} == {0, 1}:
+        return S('diff', a[2], a[3])
+      if isinstance(op, ast.Pow) and tg(a) == 'emb' and b == 2:
+        return S('sq', a[1], a[2])
+      if isinstance(op, ast.Mult) and tg(a) == 'emb' and a == b:
+        return S('sq', a[1], a[2])
+      return NotImplemented
+
+    def store(self, it, base, idx, value, node):
+      if isinstance(base, Buf) and tg(value) == 'dist':
+        iv = self._iv(idx, 0, base.n)
+        if iv is not None:
+          base.writes.append((iv, (value[1], value[2]), node))
+          return None
+      return NotImplemented
+
+    def call(self, it, d, recv, args, kwargs, node):
+      if d.startswith('.'):
+        if recv == S('self') and d == '.transform' and tg(args[0]) == 'diff':
+          return S('emb', args[0][1], args[0][2])
+        if d == '.sum' and tg(recv) == 'sq' and \
+                kwargs.get('axis', args[0] if args else None) in (-1, 1):
+          return S('sqsum', recv[1], recv[2])
+        return NotImplemented
+      short = d.rsplit('.', 1)[-1]
+      if short == 'check_is_fitted':
+        return None
+      if short == 'check_input' and args and args[0] == S('arg'):
+        return S('pairs', 0, self.n)
+      if d == 'len' and args and tg(args[0]) == 'pairs':
+        return args[0][2] - args[0][1]
+      if d.startswith('numpy.'):
+        if short == 'sum' and args and tg(args[0]) == 'sq' and \
+                kwargs.get('axis', args[1] if len(args) > 1 else None) in (
+                    -1, 1):
+          return S('sqsum', args[0][1], args[0][2])
+        if short == 'einsum' and len(args) == 3 and args[0] == 'ij,ij->i' \
+                and tg(args[1]) == 'emb' and args[1] == args[2]:
+          return S('sqsum', args[1][1], args[1][2])
+        if short == 'sqrt' and args and tg(args[0]) == 'sqsum':
+          return S('dist', args[0][1], args[0][2])
+        if short == 'linalg.norm' or d.endswith('linalg.norm'):
+          if args and tg(args[0]) == 'emb' and kwargs.get(
+                  'axis', args[2] if len(args) > 2 else None) in (-1, 1):
+            return S('dist', args[0][1], args[0][2])
+        if short in ('zeros', 'empty', 'ones') and args and \
+                (isinstance(args[0], int) or (
+                    isinstance(args[0], tuple) and len(args[0]) == 1)):
+          n = args[0] if isinstance(args[0], int) else args[0][0]
+          return Buf(n, short)
+        if short in ('concatenate', 'hstack') and args and \
+                isinstance(args[0], (list, tuple)) and \
+                all(tg(x) == 'dist' for x in args[0]):
+          parts = list(args[0])
+          ok = all(parts[i][2] == parts[i + 1][1]
+                   for i in range(len(parts) - 1))
+          if ok and parts:
+            return S('dist', parts[0][1], parts[-1][2])
+      return NotImplemented
+  bad = unk = None
+  ps = f.params()
+  for n in (1, 5, 65536, 65537, 70006, 131072, 200001):
+    w = W(n)
+    it = Interp(repo, f, w)
+    it.fuel = 200000
+    try:
+      out = it.run({ps[0]: S('self'), ps[1]: S('arg')})
+    except Undecided as u:
+      unk = unk or '%s (n_pairs=%d)' % (u, n)
+      continue
+    if out[0] == 'raise':
+      bad = bad or 'raises %s for n_pairs=%d' % (out[1][0], n)
+      continue
+    res = out[1]
+    if tg(res) == 'dist':
+      if (res[1], res[2]) != (0, n):
+        bad = bad or 'for n_pairs=%d the distances of pairs %d..%d are ' \
+            'returned' % (n, res[1], res[2])
+      continue
+    if isinstance(res, Buf):
+      cover = 0
+      for (iv, src, node) in sorted(res.writes, key=lambda t: t[0]):
+        if iv != src:
+          bad = bad or 'for n_pairs=%d entries %d:%d receive the distances ' \
+              'of pairs %d:%d' % ((n,) + iv + src)
+        if iv[0] > cover:
+          break
+        cover = max(cover, iv[1])
+      if cover < res.n or res.n != n:
+        bad = bad or 'for n_pairs=%d only the entries 0:%d of %d are ' \
+            'computed, the others keep the initial value of np.%s' % (
+                n, cover, res.n, res.fill)
+      continue
+    unk = unk or 'returns %r (n_pairs=%d)' % (res, n)
+  key = 'MahalanobisMixin.pair_distance'
+  if bad:
+    rep.refuted(R, key, site(f), bad)
+  elif unk:
+    rep.unknown(R, key, site(f), unk)
+  else:
+    rep.derived(R, key, site(f))
